@@ -122,13 +122,33 @@ def evaluate(case, ctx):
         ctx.cls("annotated" if annotated else "annotation-free", "spliced_novel>0" if n_spliced_novel else
                 "spliced_novel=0")
         has_noise = any(r["n"].startswith("rn") for r in sc["reads"])
-        if n_spliced_novel and has_noise:
+        if n_spliced_novel and (has_noise or sc.get("split_locus")):
             ctx.mark_nontrivial(case_hash(case))
             ctx.sample(pipeline.summarize(sc, {"spliced_novel_reported": n_spliced_novel}))
     finally:
         res.cleanup()
 
 
+@st.composite
+def split_scenarios(draw):
+    """An unannotated gene lying across a split point of a locus that is processed in several regions: reads that
+    cross the split point and reads that start behind it support the same novel intron chain in two regions."""
+    rnd = draw(st.randoms(use_true_random=True))
+    src = S.RndSrc(rnd)
+    annotated = draw(st.sampled_from([True, True, False]))
+    sc = S.gen_long_gene_locus(src, with_annotation=annotated, straddle=True, x_annotated=False,
+                               n_cross=draw(st.sampled_from([1, 2, 3, 4])))
+    sc["opts"] = ["--data_type", draw(st.sampled_from(["nanopore", "pacbio_ccs"])), "--no_gzip", "--threads",
+                  str(draw(st.sampled_from([1, 2])))]
+    if draw(st.booleans()):
+        sc["opts"] += ["--high_memory"]
+    if draw(st.booleans()):
+        sc["opts"] += ["--model_construction_strategy", draw(st.sampled_from(["sensitive_pacbio", "all", "default_ont"]))]
+    sc["split_locus"] = True
+    return sc
+
+
 def stages(tier):
     q = tier == "quick"
-    return [Stage("novel", "hyp", evaluate, n=256 if q else 4000, strategy=scenarios)]
+    return [Stage("novel", "hyp", evaluate, n=256 if q else 4000, strategy=scenarios),
+            Stage("split", "hyp", evaluate, n=48 if q else 600, strategy=split_scenarios)]
